@@ -574,7 +574,7 @@ pub fn generate(seed: u64, scale: usize) -> Cases {
             }
         }
     }
-    for i in 0..(24 * scale) {
+    for i in 0..(64 * scale) {
         let kind = [3u8, 3, 2, 1, 3, 2, 1, 0][i % 8];
         let mut rr = r.fork();
         let n = 4 + (i / 8) % 5;
